@@ -75,7 +75,9 @@ Expected(method, kind, ps, h) ==
 
 \* ---- construction outcome (C10) -----------------------------------------
 HasEmpty(ps) == \E i \in 1..Len(ps) : ps[i] = <<>>
-HasDup(ps)   == \E i, j \in 1..Len(ps) : i < j /\ ps[i] = ps[j]
+\* two equal entries (stated through the number of distinct entries: TLC builds the set in
+\* O(n log n), the pairwise formulation is quadratic and collections of 66 000 patterns are validated)
+HasDup(ps)   == Cardinality({ps[i] : i \in 1..Len(ps)}) < Len(ps)
 
 \* maxIdx: largest position the value type can represent when values are the
 \* input positions (entry = "new"); irrelevant for entry = "with_values"
